@@ -51,18 +51,14 @@ func metricForType(key string, path []string, val *birch.Value) []Metric {
 	case bsontype.Array:
 		return metricForArray(key, path, val.MutableArray())
 	case bsontype.EmbeddedDocument:
-		path = append(path, key)
+		// every nested level gets its own copy of the path: appending to the
+		// caller's slice would let sibling documents overwrite each other's
+		// path, and the metrics of deeper levels keep their full path.
+		subPath := make([]string, len(path), len(path)+1)
+		copy(subPath, path)
+		subPath = append(subPath, key)
 
-		o := []Metric{}
-		for _, ne := range metricForDocument(path, val.MutableDocument()) {
-			o = append(o, Metric{
-				ParentPath:    path,
-				KeyName:       ne.KeyName,
-				startingValue: ne.startingValue,
-				originalType:  ne.originalType,
-			})
-		}
-		return o
+		return metricForDocument(subPath, val.MutableDocument())
 	case bsontype.Boolean:
 		if val.Boolean() {
 			return []Metric{
